@@ -63,8 +63,7 @@ def run(rep):
             for key, what, md in bad: keys.setdefault(key, (what, md))
             for key, (what, md) in keys.items():
                 nat = None
-                if key == 'last_tuning_step' and method == 'DualAverage' and strat == 'GlobalStrategy': nat = native.run('last_step', {'num_tune': 5, 'step_size_window': 0.15})
-                if key == 'last_tuning_step' and method == 'DualAverage' and strat != 'GlobalStrategy': nat = native.run('flow_last_step', {'num_tune': 30, 'step_size_window': 0.0})
+                if key == 'last_tuning_step' and method == 'DualAverage': nat = _replay_last_step(md, 'last_step' if strat == 'GlobalStrategy' else 'flow_last_step')
                 rep.violated('%s: %s' % (tag, key), ('adapt.%s' if strat == 'GlobalStrategy' else 'external_adapt.%s') % key, '%s [%s, jitter %s] e.g. %s' % (what, method, jit, md), model=md, native=nat)
             if not keys: rep.holds('%s: invariant inductive, tuning flag <=> draw < num_tune, transformation untouched from the final window on, estimator frozen and step = averaged*jitter after warm-up (%d paths)' % (tag, len(outs)), time.time() - t0)
             if method == 'DualAverage' and jit: rep.sample({'query': tag, 'paths': len(outs), 'example events': [e for e in q.post(outs[0][0])['events']]})
@@ -74,6 +73,23 @@ def run(rep):
     native_traces(rep)
 
 def _b(v): return z3.BoolVal(v) if isinstance(v, bool) else v
+
+def _replay_last_step(md, family):
+    """native replay of a `last tuning draw installs the averaged step` counterexample: the warm-up length / final-window size of the solver's
+    model first (when they are small enough to run), then a few standard configurations; the first run that reproduces is reported"""
+    cfgs = []
+    try:
+        nt, fw = int(md.get('num_tune', '0')), int(md.get('final_window', '0'))
+        if 1 <= nt <= 400 and 0 <= fw <= nt: cfgs.append({'num_tune': nt, 'step_size_window': (nt - fw) / nt})
+    except (TypeError, ValueError): pass
+    cfgs += [{'num_tune': 5, 'step_size_window': 0.15}, {'num_tune': 30, 'step_size_window': 0.0}, {'num_tune': 16, 'step_size_window': 0.125}, {'num_tune': 100, 'step_size_window': 0.15}]
+    last = None
+    for c in cfgs:
+        r = native.run(family, c)
+        if r is None: continue
+        last = r
+        if r.get('confirmed'): return r
+    return last
 
 def new_no_panic(rep, mir, L):
     """GlobalStrategy::new for every num_tune >= 0 with the default window fractions: no panic, invariant established"""
